@@ -157,6 +157,8 @@ class Gnim(_Cached):
         r = results[0]
         x, sp = self._spec(case)
         if isinstance(out, ImplError):
+            if out['error'] == 'EMDSiftCovergeError':
+                return 'skip:an underlying extraction did not converge within max_iters (documented error, C04)'
             if r.status == 'err' and r.words and r.words[0] == out['error']:
                 return None
             return 'implementation raised %s, model says %s' % (out['error'], r.raw[:100])
@@ -175,6 +177,8 @@ class Gnim(_Cached):
         if case.get('malformed'):
             return []
         if isinstance(out, ImplError):
+            if out['error'] == 'EMDSiftCovergeError':
+                return []      # the documented non-convergence error of an underlying extraction: not a C07 matter (C04)
             return [Failure('raises:' + out['error'], out['msg'])]
         x, (imf, flag, rows) = self._spec(case)
         fs = []
@@ -390,6 +394,8 @@ class MaskSift(_Cached):
         r = results[0]
         x, src, z, freqs, cap, sp = self._spec(case, out)
         if isinstance(out, ImplError):
+            if out['error'] == 'EMDSiftCovergeError':
+                return 'skip:an underlying extraction did not converge within max_iters (documented error, C04)'
             if r.status == 'err' and r.words and r.words[0] == out['error']:
                 return None
             return 'implementation raised %s (%s), model says %s' % (out['error'], out['msg'][-120:], r.raw[:100])
@@ -415,6 +421,8 @@ class MaskSift(_Cached):
         if case.get('malformed'):
             return []
         if isinstance(out, ImplError):
+            if out['error'] == 'EMDSiftCovergeError':
+                return []      # the documented non-convergence error of an underlying extraction: not a C07 matter (C04)
             return [Failure('raises:' + out['error'], out['msg'])]
         x, src, z, freqs, cap, sp = self._spec(case, out)
         if z is not None and not np.isfinite(z):
@@ -543,6 +551,8 @@ class PoolOrder(Stream):
 
     def holds(self, case, out):
         if isinstance(out, ImplError):
+            if out['error'] == 'EMDSiftCovergeError':
+                return []      # the documented non-convergence error of an underlying extraction: not a C07 matter (C04)
             return [Failure('raises:' + out['error'], out['msg'])]
         if out['res'] != [a * a + 1 for a in out['args']]:
             return [Failure('starmap-not-in-argument-order', '%s' % out)]
